@@ -245,21 +245,21 @@ theorem outerLoop_eq (data : List UInt32) (s : RS) :
   rw [outerLoop, if_pos (by omega), outerLoop, if_pos (by omega), outerLoop, if_pos (by omega), outerLoop,
     if_pos (by omega), outerLoop, if_neg (by omega)]
 
-theorem transform_eq_compress (st data : List UInt32) (hs : st.length = 8) (hd : data.length = 16) :
-    transform st data = Spec.compress st data := by
+theorem transformFrom_eq_compress (w0 st data : List UInt32) (hw : w0.length = 16) (hs : st.length = 8)
+    (hd : data.length = 16) : transformFrom w0 st data = Spec.compress st data := by
   obtain ⟨h0, h1, h2, h3, h4, h5, h6, h7, rfl⟩ := list8 st hs
   let r0 : Spec.Regs := ⟨h0, h1, h2, h3, h4, h5, h6, h7⟩
-  have hinit : RInv data r0 0 0 ⟨[h0, h1, h2, h3, h4, h5, h6, h7], List.replicate 16 0⟩ :=
-    ⟨rfl, by simp, rfl, by intro u hu; omega⟩
+  have hinit : RInv data r0 0 0 ⟨[h0, h1, h2, h3, h4, h5, h6, h7], w0⟩ :=
+    ⟨rfl, hw, rfl, by intro u hu; omega⟩
   have a1 := RInv_next _ _ _ _ (innerLoop_inv data hd r0 0 (by omega) (by omega) 16 0 _ rfl (by omega) hinit)
   have a2 := RInv_next _ _ _ _ (innerLoop_inv data hd r0 16 (by omega) (by omega) 16 0 _ rfl (by omega) a1)
   have a3 := RInv_next _ _ _ _ (innerLoop_inv data hd r0 32 (by omega) (by omega) 16 0 _ rfl (by omega) a2)
   have a4 := RInv_next _ _ _ _ (innerLoop_inv data hd r0 48 (by omega) (by omega) 16 0 _ rfl (by omega) a3)
   have hT0 : ((List.range 8).map fun j => [h0, h1, h2, h3, h4, h5, h6, h7].getD j 0) = [h0, h1, h2, h3, h4, h5, h6, h7] := rfl
-  unfold transform
+  unfold transformFrom
   simp only [hT0, outerLoop_eq]
   generalize innerLoop data 48 0 (innerLoop data 32 0 (innerLoop data 16 0 (innerLoop data 0 0
-    ⟨[h0, h1, h2, h3, h4, h5, h6, h7], List.replicate 16 0⟩))) = sF at a4 ⊢
+    ⟨[h0, h1, h2, h3, h4, h5, h6, h7], w0⟩))) = sF at a4 ⊢
   have hr := a4.regs
   simp only [Nat.add_zero] at hr
   have hc : Spec.compress [h0, h1, h2, h3, h4, h5, h6, h7] data =
@@ -268,4 +268,9 @@ theorem transform_eq_compress (st data : List UInt32) (hs : st.length = 8) (hd :
   rw [hc, show (0 + 16 + 16 + 16 + 16 : Nat) = 64 from rfl] at *
   simp only [← hr, regsAt]
   simp [List.range, List.range.loop, UInt32.add_comm]
+
+theorem transform_eq_compress (st data : List UInt32) (hs : st.length = 8) (hd : data.length = 16) :
+    transform st data = Spec.compress st data :=
+  transformFrom_eq_compress _ st data (by simp) hs hd
+
 end Nstd.Sha
